@@ -88,3 +88,53 @@ def run_corpus(prop: str, variants: list[dict], jobs: int = 16, repo_root: str =
         "by_outcome": {e: {str(x): sum(1 for r in applicable if r["expect"] == e and r["exit"] == x) for x in (0, 1, 2)}
                        for e in ("fire", "notice", "silent")},
     }
+
+
+def run_patch_corpus(prop: str, repo_root: str = "/repo", jobs: int = 8) -> dict:
+    """Thorough tier: the kept corpora of independent changes (seeded/ = breaking, refactors/ = behaviour preserving) of this
+    property, each applied to a scratch copy of the tree under the temp dir (removed at once) and checked.
+    Expectation: what meta.json recorded when the change was confirmed (`confirmed.check_exit`); a breaking change must never
+    pass (exit 0), a behaviour-preserving one must never be reported (exit 1)."""
+    import json
+    out = {"seeded": [], "refactors": [], "mismatch": []}
+
+    def one(kind, name, path):
+        tmp = tempfile.mkdtemp(prefix="swcgeom_corpus_")
+        try:
+            dst = os.path.join(tmp, "swcgeom")
+            shutil.copytree(os.path.join(repo_root, "swcgeom"), dst, ignore=shutil.ignore_patterns("__pycache__", "*.pyc"))
+            r = subprocess.run(["patch", "-p1", "--no-backup-if-mismatch", "-s", "-i", os.path.join(path, "patch.diff")], cwd=tmp, capture_output=True, text=True)
+            if r.returncode != 0:
+                return (kind, name, None, "patch does not apply to this tree")
+            r = subprocess.run([sys.executable, os.path.join(HERE, "check.py"), prop, "--repo", tmp, "--no-evidence"], capture_output=True, text=True,
+                               timeout=300, env={**os.environ, "VERIF_SELFTEST_CHILD": "1"})
+            return (kind, name, r.returncode, "")
+        finally:
+            shutil.rmtree(tmp, ignore_errors=True)
+
+    jobs_l = []
+    for kind in ("seeded", "refactors"):
+        root = os.path.join(HERE, kind)
+        if not os.path.isdir(root):
+            continue
+        for name in sorted(os.listdir(root)):
+            mp = os.path.join(root, name, "meta.json")
+            if name.startswith(prop + "-") and os.path.exists(mp):
+                jobs_l.append((kind, name, os.path.join(root, name)))
+    with ThreadPoolExecutor(max_workers=jobs) as ex:
+        res = list(ex.map(lambda a: one(*a), jobs_l))
+    for kind, name, code, why in res:
+        out[kind].append({"name": name, "exit": code, "note": why})
+        if code is None:
+            continue
+        if kind == "seeded" and code == 0:
+            out["mismatch"].append(f"{name}: a kept breaking change passes (exit 0)")
+        if kind == "refactors" and code == 1:
+            out["mismatch"].append(f"{name}: a kept behaviour-preserving change is reported (exit 1)")
+        try:
+            rec = json.load(open(os.path.join(HERE, kind, name, "meta.json"))).get("confirmed", {}).get("check_exit")
+        except Exception:  # noqa: BLE001
+            rec = None
+        if kind == "seeded" and rec == 1 and code != 1:
+            out["mismatch"].append(f"{name}: was reported as a violation when confirmed, now exit {code}")
+    return out
